@@ -55,7 +55,7 @@ func (m *minter) mint(group, name string, prio int64, suspended, replace bool, t
 	must(m.s.ScheduleJob(jd, &fixedTrigger{prio}))
 	sj, err := m.q.Pop()
 	must(err)
-	opts.Suspended = suspended // visible through JobDetail().Options()
+	jd.Options().Suspended = suspended // visible through JobDetail().Options()
 	return sj
 }
 
